@@ -13,11 +13,14 @@ GLUE = """
 use std::sync::Arc;
 // connection interface: opaque here (sending is U-route's business)
 pub trait ISocketConnection {}
-#[verifier::external_body]
-pub struct Notify { x: u8 }
+// tokio::sync::Notify with a ghost count of the two kinds of wake-up: notify_waiters() wakes EVERY task parked in notified(),
+// notify_one() at most one.  (R5: the field is Arc<Notify>; the stand-in is held by value so that the ghost counters can be updated.)
+pub struct Notify { pub woke_all: Ghost<nat>, pub woke_one: Ghost<nat> }
 impl Notify {
-  #[verifier::external_body]
-  pub fn notify_waiters(&self) { unimplemented!() }
+  pub fn notify_waiters(&mut self) ensures final(self).woke_all@ == old(self).woke_all@ + 1, final(self).woke_one@ == old(self).woke_one@
+  { proof { self.woke_all = Ghost((self.woke_all@ + 1) as nat); } }
+  pub fn notify_one(&mut self) ensures final(self).woke_one@ == old(self).woke_one@ + 1, final(self).woke_all@ == old(self).woke_all@
+  { proof { self.woke_one = Ghost((self.woke_one@ + 1) as nat); } }
 }
 #[verifier::external_body]
 pub struct AtomicBool { x: u8 }
@@ -55,7 +58,8 @@ parts = [
   Raw("prelude/std.rs"),
   Item(LB, "struct", "Peer"),
   Item(LB, "struct", "BalancerState"),
-  Item(LB, "struct", "LoadBalancer", extra=[("R6", "state: Mutex<BalancerState>", "state: BalancerState", 1), ("R5", "std::sync::atomic::AtomicBool", "AtomicBool", 1)]),
+  Item(LB, "struct", "LoadBalancer", extra=[("R6", "state: Mutex<BalancerState>", "state: BalancerState", 1), ("R5", "std::sync::atomic::AtomicBool", "AtomicBool", 1),
+                                           ("R5", "notify_waiters: Arc<Notify>", "notify_waiters: Notify", 1)]),
   Raw(text=GLUE, label="lb-glue"),
   Fn(LB, "add_connection", impl=IMPL, emit_impl="impl LoadBalancer", sig_sub=SIG,
      requires=["old(self).state.wf()"],
@@ -64,9 +68,11 @@ parts = [
        ("C13:joins_at_the_end_once", "!uris(old(self).state.peers@).contains(endpoint_uri@) ==> uris(final(self).state.peers@) == uris(old(self).state.peers@).push(endpoint_uri@)"),
        ("C13:duplicate_add_is_noop", "uris(old(self).state.peers@).contains(endpoint_uri@) ==> final(self).state.peers@ == old(self).state.peers@"),
        ("C13:cursor_untouched", "final(self).state.next_idx == old(self).state.next_idx || old(self).state.peers@.len() == 0"),
+       # property text: "a send that is waiting for a first peer proceeds as soon as one has connected" -- for sends from 1..m tasks, so EVERY parked sender
+       ("C13:a_joining_peer_wakes_every_waiting_sender", "!uris(old(self).state.peers@).contains(endpoint_uri@) ==> final(self).notify_waiters.woke_all@ > old(self).notify_waiters.woke_all@"),
      ],
      extra=LOCK + [("R8", "!self.state.peers.iter().any(|p| p.uri == endpoint_uri)", "!verif_any_uri(&self.state.peers, &endpoint_uri)", 1)],
-     hints=[("ext", "re:self\\.notify_waiters\\.notify_waiters\\(\\);", 0, "before",
+     hints=[("ext", "re:self\\.state\\.peers\\.push\\(Arc::new\\(Peer \\{[^;]*\\}\\)\\);", 0, "after",
              "proof { assert(uris(self.state.peers@) =~= uris(old(self).state.peers@).push(endpoint_uri@)); "
              "assert forall|i: int, j: int| 0 <= i < j < uris(self.state.peers@).len() implies uris(self.state.peers@)[i] != uris(self.state.peers@)[j] by { "
              "if j == uris(self.state.peers@).len() - 1 { assert(uris(old(self).state.peers@)[i] != endpoint_uri@) by { assert(uris(old(self).state.peers@).contains(uris(old(self).state.peers@)[i])); } } "
